@@ -253,6 +253,13 @@ func (te *tableEngine) batchAddPlayers(players []JoinPlayer) error {
 
 		newPlayerIdx := len(te.table.State.PlayerStates) + len(newPlayers) - 1
 		newSeatMap[seat] = newPlayerIdx
+
+		// the seat manager assumes a new player has chips
+		if player.Bankroll <= 0 {
+			if err := te.sm.UpdatePlayerHasChips(player.PlayerID, false); err != nil {
+				return err
+			}
+		}
 	}
 
 	te.table.State.SeatMap = newSeatMap
